@@ -96,6 +96,13 @@ type script struct {
 	// viaDesc: the function under test is obtained through WithNewDescriptions
 	// (a second route to a Function with the same specification).
 	viaDesc bool
+
+	// paramTable (shared.go): the Params slice of the real specification is this
+	// slice itself - a window of a table that other specifications use too -
+	// instead of a slice of the function's own. It declares exactly s.params.
+	paramTable []function.Parameter
+	// history: the calls made before this function was called, when they are part of the case (shared.go)
+	history string
 }
 
 func (s *script) paramFor(i int) *pspec {
@@ -150,6 +157,9 @@ func (s *script) String() string {
 	}
 	if s.viaDesc {
 		b.WriteString(" via=WithNewDescriptions")
+	}
+	if s.history != "" {
+		b.WriteString(" history=" + s.history)
 	}
 	return b.String()
 }
@@ -215,14 +225,20 @@ func doPanic(kind int) {
 	panic("unreachable")
 }
 
+func mkParameter(p pspec) function.Parameter {
+	return function.Parameter{Name: "p", Type: p.ty, AllowNull: p.null, AllowUnknown: p.unk, AllowDynamicType: p.dyn, AllowMarked: p.marked}
+}
+
 // build makes the real function.Function whose callbacks are the spies.
 func (s *script) build(log *spyLog) function.Function {
-	mk := func(p pspec) function.Parameter {
-		return function.Parameter{Name: "p", Type: p.ty, AllowNull: p.null, AllowUnknown: p.unk, AllowDynamicType: p.dyn, AllowMarked: p.marked}
-	}
+	mk := mkParameter
 	spec := &function.Spec{}
-	for _, p := range s.params {
-		spec.Params = append(spec.Params, mk(p))
+	if s.paramTable != nil {
+		spec.Params = s.paramTable
+	} else {
+		for _, p := range s.params {
+			spec.Params = append(spec.Params, mk(p))
+		}
 	}
 	if s.varp != nil {
 		vp := mk(*s.varp)
